@@ -814,7 +814,54 @@ def check_k1(case, rec):
     rec.nontrivial(True)
 
 
+# ---------------------------------------------------------------------------
+# 8. lat-lon (+ time) fields: the generator is evaluated at the points on the sphere of radius geo_scale, time appended
+#    and scaled by the last anisotropy ratio only - the separation the model covariance refers to
+
+
+@st.composite
+def gen_latlon_path(draw, tier="quick"):
+    n = draw(st.integers(2, 6))
+    return {
+        "cls": draw(st.sampled_from(["Gaussian", "Exponential", "Matern"])),
+        "temporal": draw(st.booleans()),
+        "geo_scale": draw(st.sampled_from([1.0, gs.DEGREE_SCALE, gs.KM_SCALE, 2.56])),
+        "frac": draw(logfloat(0.05, 1.0)),
+        "time_anis": draw(logfloat(0.1, 10.0)),
+        "lat": [draw(st.floats(-90, 90)) for _ in range(n)],
+        "lon": [draw(st.floats(-360, 360)) for _ in range(n)],
+        "t": [draw(st.floats(-5, 5)) for _ in range(n)],
+        "seed": draw(st.integers(0, 2**31 - 1)),
+        "mode_no": draw(st.sampled_from([16, 64])),
+    }
+
+
+def check_latlon_path(case, rec):
+    g, T = case["geo_scale"], case["temporal"]
+    tags = {"model": case["cls"], "kind": "latlon_path", "temporal": T, "geo_scale": g}
+    rec.label("latlon_temporal" if T else "latlon", f"geo{g:.3g}")
+    kw = dict(latlon=True, geo_scale=g, len_scale=case["frac"] * g, var=1.7)
+    if T:
+        kw.update(temporal=True, anis=[1.0, 1.0, case["time_anis"]])
+    with quiet():
+        model = lib(getattr(gs, case["cls"]), _what="lat-lon model", _tags=tags, **kw)
+        srf = lib(gs.SRF, model, seed=case["seed"], mode_no=case["mode_no"], _tags=tags)
+        lat, lon, t = np.array(case["lat"]), np.array(case["lon"]), np.array(case["t"])
+        pos = np.vstack([lat, lon] + ([t] if T else []))
+        f = np.asarray(lib(srf, pos.copy(), _tags=tags), dtype=float)
+        la, lo = np.deg2rad(lat), np.deg2rad(lon)
+        iso = [g * np.cos(la) * np.cos(lo), g * np.cos(la) * np.sin(lo), g * np.sin(la)] + ([t / case["time_anis"]] if T else [])
+        want = np.asarray(srf.generator(np.array(iso)), dtype=float)
+    sc = math.sqrt(1.7) * (1.0 + 1e-3 * case["mode_no"])
+    err = float(np.max(np.abs(f - want)))
+    rec.discrepancy("latlon_path", err, 1e-8 * sc)
+    require(err <= 1e-8 * sc, f"lat-lon{' + time' if T else ''} field (geo_scale {g:.6g}) differs from its generator evaluated at geo_scale * unit(lat, lon)"
+            f"{' with t / anis[-1]' if T else ''} by {err:.3g}", tags)
+    rec.nontrivial(g != 1.0 or T)
+
+
 SUBS = [
+    Sub("latlon_path", gen_latlon_path, check_latlon_path, quick=300, thorough=6000, shards_quick=2, shards_thorough=4),
     Sub("amp_law", gen_amp, check_amp, quick=16, thorough=120, shards_quick=2, shards_thorough=4, shrink_quick=False),
     Sub("wave_law", gen_wave, check_wave, quick=60, thorough=1200, shards_quick=5, shards_thorough=8, shrink_quick=False, budget_quick=150),
     Sub("wave_law_cdf_inversion", gen_wave_cdf, check_wave, quick=12, thorough=60, shards_quick=3, shards_thorough=6, shrink_quick=False),
